@@ -257,7 +257,7 @@ class Interp(Engine):
             if attr == "name":
                 c = conc_int(base.t)
                 if c is None:
-                    raise Unsupported("symbolic enum .name")
+                    return VEnumName(base)
                 return VStr(enum_members(base.cls)[c].name)
             if hasattr(base.cls, attr):
                 return self.class_attr(base, base.cls, attr)
@@ -294,6 +294,8 @@ class Interp(Engine):
 
     def subscript(self, base, idx):
         idx = self.force(idx)
+        if isinstance(base, VObj) and isinstance(base.cls, MapCls):
+            return self.map_get(base, idx)
         if isinstance(base, VMap):
             try:
                 k = self.lower(idx)
@@ -702,7 +704,6 @@ class Interp(Engine):
         snap = None
         try:
             r = self.ev(node)
-            r = self.force(r) if isinstance(r, VOpt) else r
             if isinstance(r, VList):
                 st = self._lst(r)
                 snap = ["conc", list(st[1])] if st[0] == "conc" else ["sym", st[1], list(st[2]), st[3]]
@@ -904,12 +905,20 @@ class Interp(Engine):
                 self.contract = c
                 # havoc
                 for fld in c.modifies:
-                    self.havoc_field(fld)
+                    if "." in fld:
+                        oexpr, fname = fld.rsplit(".", 1)
+                        self.havoc_cell(self.force(self.eval_clause(oexpr)), fname)
+                    else:
+                        self.havoc_field(fld)
                 for pname in c.modifies_lists:
                     lv = code_env.get(pname)
                     if isinstance(lv, VList):
                         pt = next((vt[pname] for vt in c.variants.values() if pname in vt), None)
                         self.havoc_list(lv, "%s.%s'" % (c.key, pname), pt.elem if isinstance(pt, TList) else None)
+                for mexpr, kexpr in c.modifies_maps:
+                    mobj = self.force(self.eval_clause(mexpr))
+                    kval = self.eval_clause(kexpr)
+                    self.map_havoc_key(mobj, kval)
                 if c.allocates:
                     a = self.alloc_term()
                     na = z3.Int(self.fresh_name("$alloc"))
@@ -1242,9 +1251,41 @@ class Interp(Engine):
                     for i, cl in enumerate(clauses):
                         self.prove(self.eval_clause(cl), "hint", "%s[%d]" % (key, i), node.lineno, assume_after=True)
         m(node)
+        if self.contract.ghost and self.call_depth == 0:
+            try:
+                first = ast.unparse(node).splitlines()[0].strip()
+            except Exception:
+                first = ""
+            for key, stmts in self.contract.ghost.items():
+                if key.startswith("after:") and first.startswith(key[6:].strip()):
+                    for text in stmts:
+                        self.exec_ghost(text)
         hook = self.contract.ghost_after.get(getattr(node, "lineno", -1)) if self.call_depth == 0 else None
         if hook is not None:
             hook(self)
+
+    def exec_ghost(self, text):
+        """Ghost statement: an assignment whose target is rooted in a declared ghost field."""
+        tree = ast.parse(text.strip()).body
+        for st in tree:
+            if not isinstance(st, (ast.Assign, ast.AugAssign)):
+                raise Unsupported("ghost code must be assignments: %r" % text)
+            targets = st.targets if isinstance(st, ast.Assign) else [st.target]
+            for t in targets:
+                root = t
+                while isinstance(root, ast.Subscript):
+                    root = root.value
+                if not (isinstance(root, ast.Attribute) and root.attr in self.contract.ghost_fields):
+                    raise Unsupported("ghost statement writes a non-ghost location: %r" % text)
+            saved = self.in_clause
+            self.in_clause = True   # ghost code is pure specification-level code
+            try:
+                self.exec_stmt_raw(st)
+            finally:
+                self.in_clause = saved
+
+    def exec_stmt_raw(self, node):
+        getattr(self, "st_" + type(node).__name__)(node)
 
     def st_Pass(self, node):
         pass
@@ -1328,6 +1369,9 @@ class Interp(Engine):
             raise Unsupported("assignment target %s" % type(t).__name__)
 
     def store_subscript(self, base, idx, v):
+        if isinstance(base, VObj) and isinstance(base.cls, MapCls):
+            self.map_set(base, idx, v)
+            return
         if isinstance(base, VList):
             iv = self.as_int(self.force(idx))
             self.list_set(base, iv.t, v)
@@ -1638,6 +1682,13 @@ class Interp(Engine):
                 same = True  # representation change only (to_sym_list); content equal by construction
             if not same:
                 raise Unsupported("loop#%d body mutates a list that was not havoced (declare modifies_lists)" % o)
+
+
+class VEnumName(V):
+    """.name of a symbolic enum member (only substring tests against literals are supported)."""
+
+    def __init__(self, ev):
+        self.ev = ev
 
 
 class VRange(V):
@@ -2273,3 +2324,60 @@ def _np_add(self, args, kw):
 
 
 BUILTINS[np.add] = _np_add
+
+
+@builtin(_c.forall_int)
+def _forall_int(self, args, kw):
+    f = args[0]
+    if not isinstance(f, VClosure):
+        raise Unsupported("forall_int expects a lambda")
+    j = z3.Int(self.fresh_name("fa"))
+    npc = len(self.pc)
+    b0 = self.cur_bounds()
+    saved_b = (b0.clone(), self._bounds_n, self._bounds_last)
+    self.solver.push()
+    try:
+        self.in_quant += 1
+        body = self.truth(self.call_closure(f, [VInt(j)], {}))
+        extra = self.pc[npc:]
+    finally:
+        self.in_quant -= 1
+        del self.pc[npc:]
+        self.solver.pop()
+        self._bounds, self._bounds_n, self._bounds_last = saved_b
+    if extra:
+        self.assume(z3.ForAll([j], z3.And(extra)))
+    return VBool(z3.ForAll([j], body))
+
+
+@builtin(_c.enum_key)
+def _enum_key(self, args, kw):
+    return VInt(self.map_key(args[0]))
+
+
+@builtin(_c.forall_enum)
+def _forall_enum(self, args, kw):
+    cls = self.lower(args[0])
+    f = args[1]
+    if not isinstance(f, VClosure):
+        raise Unsupported("forall_enum expects a lambda")
+    j = z3.Int(self.fresh_name("fe"))
+    rng = z3.And(j >= 0, j < len(enum_members(cls)))
+    npc = len(self.pc)
+    b0 = self.cur_bounds()
+    saved_b = (b0.clone(), self._bounds_n, self._bounds_last)
+    self.solver.push()
+    try:
+        self.in_quant += 1
+        self.pc.append(rng)
+        self.solver_add(rng)
+        body = self.truth(self.call_closure(f, [VEnum(cls, j)], {}))
+        extra = self.pc[npc + 1:]
+    finally:
+        self.in_quant -= 1
+        del self.pc[npc:]
+        self.solver.pop()
+        self._bounds, self._bounds_n, self._bounds_last = saved_b
+    if extra:
+        self.assume(z3.ForAll([j], z3.Implies(rng, z3.And(extra))))
+    return VBool(z3.ForAll([j], z3.Implies(rng, body)))
